@@ -17,6 +17,9 @@ TRANSPARENT = [
     r'::peekable$', r'::enumerate$',
 ]
 _TR = [re.compile(p) for p in TRANSPARENT]
+# calls whose result is built from ALL their arguments
+ALL_ARGS = [re.compile(p) for p in (r'^std::path::Path::join$', r'^std::path::Path::with_extension$', r'^std::path::Path::with_file_name$',
+                                    r'::unwrap_or$', r'::from_residual$', r'^std::path::Path::strip_prefix$', r'::or$', r'::min$', r'::max$')]
 
 
 def is_transparent(callee, extra=()):
@@ -63,10 +66,11 @@ def sources(fn, op, extra_transparent=(), opaque=(), max_nodes=4000):
                 s = Site(fn, bi, payload)
                 if s.callee and any(re.search(p, s.callee) for p in opaque):
                     out.add(('call', s.callee, bi))
+                elif s.callee and any(r.search(s.callee) for r in ALL_ARGS) and s.args:
+                    for a in s.args:
+                        push_op(a)
                 elif s.callee and is_transparent(s.callee, extra_transparent) and s.args:
                     push_op(s.args[0])
-                    if re.search(r'::unwrap_or$|::from_residual$', s.callee) and len(s.args) > 1:
-                        push_op(s.args[1])
                 else:
                     out.add(('call', s.callee or '<indirect>', bi))
             else:
